@@ -391,6 +391,7 @@ func C17Corrupt(text, version string, kind, pos int, w string) {
 	default:
 		t = text[:pos] + w + text[pos:]
 	}
+	vv.Reached()
 	me := mustError(t, version)
 	vv.Assume(me == meMust)
 	ok, err := vers.Contains(t, version)
@@ -399,6 +400,7 @@ func C17Corrupt(text, version string, kind, pos int, w string) {
 
 // C17Bad: an arbitrary (raw) range text.
 func C17Bad(text, version string) {
+	vv.Reached()
 	me := mustError(text, version)
 	vv.Assume(me == meMust)
 	ok, err := vers.Contains(text, version)
